@@ -224,11 +224,12 @@ def run(chk):
     never = sorted(r for r in named_regions if not resolved_regions.get(r))
     # a role that a file kind never has in either shape (e.g. an interior page in a 2-page toast file) is reported, and it is a
     # tool error when a whole FIELD of the model is never resolved anywhere
-    fields_named = {(fk, field_of(r)) for fk, r in named_regions}
-    fields_hit = {(fk, field_of(r)) for (fk, r), shapes in resolved_regions.items() if shapes}
+    btree = {"table", "index", "toast", "hnsw"}
+    fields_named = {("btree" if fk in btree else fk, field_of(r)) for fk, r in named_regions}
+    fields_hit = {("btree" if fk in btree else fk, field_of(r)) for (fk, r), shapes in resolved_regions.items() if shapes}
     dead = sorted(fields_named - fields_hit)
     if dead and (thorough or len(dead) > 25):
-        raise vlib.ToolError("the fault model names regions the harness resolves in no shape: %s" % dead[:12])
+        raise vlib.ToolError("the fault model names regions the harness resolves in no file of no shape: %s" % dead[:12])
     touched = sum(v for k, v in stats.items() if k != "absent")
     if stats["err"] < 0.05 * touched:
         raise vlib.ToolError("vacuous faults: only %d of %d applied faults were noticed by TurDB at all" % (stats["err"], touched))
